@@ -141,6 +141,10 @@ func (s *IDGenerator) String() string {
 }
 
 func (s *IDGenerator) Clear(stream int) (inuse bool) {
+	if stream < 0 || stream >= s.NumStreams {
+		// not a stream id of this generator: never in use
+		return false
+	}
 	offset := bucketOffset(stream)
 	yield(8)
 	bucket := atomic.LoadUint64(&s.streams[offset])
